@@ -212,6 +212,17 @@ func runFlags(t *simrt.Tape, keep bool) simrt.Outcome {
 				n    int64
 			}{{"-1", -1}, {"0", 0}, {"2000", 2000}, {"10 MB", 10 << 20}, {"10MB", 10 << 20}, {"10240 g", 10240 << 30}, {"1tB", 1 << 40}, {"5 peta", 5 << 50}, {"28 kilobytes", 28 << 10}, {"1 gigabyte", 1 << 30}, {"1KB", 1 << 10}, {"512b", 512}}
 			f := forms[t.Choose(len(forms))]
+			if t.Prob(1, 2) {
+				// a plain decimal byte count ("2000" -> 2000B), possibly zero-padded, possibly with a unit
+				n := int64(t.Choose(1000000))
+				digits := strings.Repeat("0", t.Biased(3, 2, 3)) + strconv.FormatInt(n, 10)
+				units := []struct {
+					s string
+					m int64
+				}{{"", 1}, {"B", 1}, {"b", 1}, {"KB", 1 << 10}, {" kb", 1 << 10}, {"MB", 1 << 20}, {" mb", 1 << 20}}
+				u := units[t.Biased(len(units), 1, 2)]
+				f.text, f.n = digits+u.s, n*u.m
+			}
 			_, _, mb, _, _, _, err := attackFlagValues("-max-body=" + f.text)
 			sample["flag"], sample["value"] = "max-body", f.text
 			r.log.Addf("max-body %s", f.text)
